@@ -630,6 +630,15 @@ func (g *gen) next(l *live, prop string) step {
 		if rest := l.plen(pi) - bi*16384; rest < 16384 {
 			s.C = uint32(rest)
 		}
+		switch r.Intn(8) {
+		case 0:
+			s.C = 16384 // the short last block asked for in full: runs past the end of the piece
+		case 1:
+			// a range that straddles the end of the piece
+			if l.plen(pi) > 100 {
+				s.B, s.C = uint32(l.plen(pi)-100), 16384
+			}
+		}
 		return s
 	}
 	x := r.Intn(30 + wUpload + wReq + wPex)
